@@ -91,7 +91,11 @@ var subHitReval = ev.Register("hit-vs-revalidate",
 	})
 
 func TestHitVsRevalidate(t *testing.T) {
-	subHitReval.CheckSalt(t, 21, ev.N(12, 600), func(t *rapid.T) HitReval {
+	n := ev.N(24, 600)
+	if ev.Race() && !ev.Thorough() {
+		n = 20 // the one workload that puts hits next to revalidations of the same entry: not a quarter of it
+	}
+	subHitReval.CheckSalt(t, 21, n, func(t *rapid.T) HitReval {
 		return HitReval{
 			Backend:    rapid.SampledFrom([]string{"memory", "file"}).Draw(t, "backend"),
 			Transport:  rapid.SampledFrom([]string{"plain", "plain", "tunnel"}).Draw(t, "transport"),
